@@ -8,6 +8,7 @@ import math
 import numpy as np
 
 from mc import opgraph
+from mc import ordertypes as ot
 from mc import refs
 from mc import rngtree
 from mc.harness import HarnessError, guarded
@@ -271,7 +272,8 @@ def run(item, ctx, tier, seed):
                             _calls.append(s)
                             return menu[_seq[len(_calls) - 1]]
 
-                        cfg2 = BootstrapConfig(nb_samples=n, sampling_method=sampler2, bootstrap_method=method)
+                        cfg2 = BootstrapConfig(nb_samples=n, sampling_method=sampler2,
+                                               bootstrap_method=ot.string_kinds(method)[(n + len(seq) + int(alpha * 10)) % 3][1])
                         c3 = dict(case, method=method, alpha=alpha)
                         ok, ci = guarded(ctx, "bootstrap_ci", c3, lambda: src.bootstrap_ci(metric, alpha, cfg2, **kwargs))
                         ctx.tick()
@@ -414,7 +416,8 @@ def _run_builtin(item, ctx, b):
                 continue
             if n > 2 and strat is None:
                 continue
-            cfg = BootstrapConfig(nb_samples=n, sampling_method=method, stratified_sampling=strat)
+            cfg = BootstrapConfig(nb_samples=n, sampling_method=ot.string_kinds(method)[n % 3][1],
+                                  stratified_sampling=None if strat is None else ot.string_kinds(strat)[(n + 1) % 3][1])
             for mname, kw in metrics[:1] if n > 1 else metrics:
                 case = {"source": item["which"], "method": method, "stratified": strat, "nb_samples": n, "metric": mname}
                 ctx.state()
